@@ -39,6 +39,9 @@ def emit_obligations(repo):
 
 
 def obligations(repo):
-    return emit_obligations(repo) + [dict(id="C19.enc.%d" % K, prop="C19", harness="harness/isa_h.c", entry="h_det_enc", defines={"VERIF_K": K},
+    import os, sys
+    sys.path.insert(0, os.path.dirname(os.path.abspath(__file__)))
+    import c10
+    return emit_obligations(repo) + c10.shape_obligations("C19") + [dict(id="C19.enc.%d" % K, prop="C19", harness="harness/isa_h.c", entry="h_det_enc", defines={"VERIF_K": K},
                  unwind=33, strength="X", functions=["isa_encode"], must_have=[r"C19\.enc", r"COVER"], min_checks=20)
             for K in range(256)]
